@@ -228,6 +228,14 @@ def apply_ops(sf, ops):
         elif k == "notes":
             if sf.charts:
                 sf.charts[0].notes = op[1]
+        elif k == "extra":
+            # extra components of an SM chart (after the note data): assigned, or extended in place
+            if sf.charts and hasattr(sf.charts[0], "extradata"):
+                ch = sf.charts[0]
+                if op[1] == "assign" or ch.extradata is None:
+                    ch.extradata = list(op[2])
+                else:
+                    ch.extradata.extend(op[2])
         elif k == "dropnotes":
             if sf.charts and hasattr(sf.charts[0], "pop"):
                 try:
